@@ -10,19 +10,22 @@ step is the expression grammar (`Model/Expr.lean`, theorems in `Thm/C11.lean`).
 
 The quantifier "every `Ms` the library can hold" is `Ms.all (nodeOk c) m`: at every node
 `from_ast` succeeded (type check, height ≤ 402, `check_global_validity`), the invariants of the Rust
-types hold (`AbsLockTime`/`RelLockTime` ranges, `Threshold<_, MAX>`: 1 ≤ k ≤ n ≤ MAX), the atoms are
-read back by the key type's `FromStr` — and the node is NOT a raw public key hash: for those the
-faithful model makes the statement FALSE (`rawpkh_*` below; reproduced on the real library).
+types hold (`AbsLockTime`/`RelLockTime` ranges, `Threshold<_, MAX>`: 1 ≤ k ≤ n ≤ MAX) and the atoms
+are read back by the key type's `FromStr`.  There is NO excluded fragment: before repo commit
+b17364cb `Display` printed a bare `RawPkH` under a name the parser does not know and folded
+`c:RawPkH` into a name the parser reads as a different object (this file then proved the negation
+of the unrestricted statement on that witness); with the repaired printer the theorem holds for
+raw public key hashes too (`rawpkh_*` below are now instances of T5).
 -/
 import MsVerif.Lemmas.DisplayPlain
 
 namespace MsVerif.C10b
 open MsVerif MsVerif.Display
 
-/-- **T5** the parser inverts the printer: for every miniscript object without raw key hashes,
-parsing the expression tree that `Display` prints gives back the SAME abstract syntax tree —
-through wrapper folding (`t:`, `l:`, `u:`, merged prefixes, the `:` separator), `pk`/`pkh`,
-`and_n`, thresholds and multis of any size. -/
+/-- **T5, full strength** the parser inverts the printer: for EVERY miniscript object, parsing the
+expression tree that `Display` prints gives back the SAME abstract syntax tree — through wrapper
+folding (`t:`, `l:`, `u:`, merged prefixes, the `:` separator), `pk`/`pkh`, `and_n`,
+`expr_raw_pkh`, thresholds and multis of any size. -/
 theorem fromTree_toTree (c : Codec) (m : Ms) (h : Ms.all (nodeOk c) m = true) :
     fromTree c (toTree c m) = .ok m := by
   unfold fromTree toTree
@@ -51,9 +54,9 @@ theorem display_fixed_point (c : Codec) (m m' : Ms) (h : Ms.all (nodeOk c) m = t
   injection hp with e
   rw [e]
 
-/-- the unsugared spelling (`c:pk_k(K)`, `and_v(X,1)`, `or_i(0,X)`, `or_i(X,0)`, `andor(X,Y,0)`,
-`c:expr_raw_pkh(H)`) parses to the AST it spells — raw key hashes included -/
-theorem plain_spelling_parses (c : Codec) (m : Ms) (h : Ms.all (nodeOkX c) m = true) :
+/-- the unsugared spelling (`c:pk_k(K)`, `and_v(X,1)`, `or_i(0,X)`, `or_i(X,0)`, `andor(X,Y,0)`)
+parses to the AST it spells -/
+theorem plain_spelling_parses (c : Codec) (m : Ms) (h : Ms.all (nodeOk c) m = true) :
     fromTree c (plainTree c m) = .ok m := by
   unfold fromTree plainTree
   rw [plainTreeW_noCurly c m []]
@@ -61,64 +64,53 @@ theorem plain_spelling_parses (c : Codec) (m : Ms) (h : Ms.all (nodeOkX c) m = t
   simp only [List.map_nil] at this
   rw [this]
   have hg : Ms.all c.gv m = true :=
-    all_mono (nodeOkX c) c.gv (fun x hx => ((nodeOkX_iff c x).1 hx).2.2.1) m h
+    all_mono (nodeOk c) c.gv (fun x hx => ((nodeOk_iff c x).1 hx).2.2.1) m h
   simp [wrapAll, hg]
 
 /-- aliases and syntactic sugar never change meaning: the sugared spelling that `Display` chooses
 and the unsugared spelling of the same object parse to the same AST -/
 theorem sugar_never_changes_meaning (c : Codec) (m : Ms) (h : Ms.all (nodeOk c) m = true) :
     fromTree c (plainTree c m) = fromTree c (toTree c m) := by
-  rw [fromTree_toTree c m h,
-    plain_spelling_parses c m (all_mono _ _ (nodeOkX_of_nodeOk c) m h)]
+  rw [fromTree_toTree c m h, plain_spelling_parses c m h]
 
-/-! ## the excluded point: raw public key hashes (a violation of the property) -/
+/-! ## raw public key hashes: the formerly excluded point, now instances of T5 -/
 
-/-- the statement without the exclusion -/
-def fromTree_toTree_full : Prop :=
-  ∀ (c : Codec) (m : Ms), Ms.all (nodeOkX c) m = true → fromTree c (toTree c m) = .ok m
+/-- `c:expr_raw_pkh(H)` is printed as the wrapper `c:` over `expr_raw_pkh(H)` (no folding) … -/
+theorem rawpkh_check_printed_unfolded (c : Codec) (h : Nat) :
+    toTree c (.check (.rawPkH h)) = plainTree c (.check (.rawPkH h)) := by
+  unfold toTree plainTree
+  rw [toTreeW, plainTreeW]
+  simp only [sugarCheck]
+  rw [toTreeW, plainTreeW]
 
-/-- `Display` folds `c:` over a raw key hash into the name `expr_raw_pkh`, which the parser reads
-as the BARE (K-typed) `RawPkH`: the round trip of `c:expr_raw_pkh(H)` yields a different object -/
-theorem rawpkh_check_roundtrip_differs (c : Codec) (h : Nat)
-    (hok : Ms.all (nodeOkX c) (.rawPkH h) = true) :
-    fromTree c (toTree c (.check (.rawPkH h))) = .ok (.rawPkH h) := by
-  have e : toTree c (.check (.rawPkH h)) = plainTree c (.rawPkH h) := by
-    unfold toTree plainTree
-    rw [toTreeW, plainTreeW]
-    simp [sugarCheck]
-  rw [e]
-  exact plain_spelling_parses c (.rawPkH h) hok
+/-- … and parses back to the B-typed `c:RawPkH`, not to the bare K-typed fragment -/
+theorem rawpkh_check_roundtrip (c : Codec) (h : Nat)
+    (hok : Ms.all (nodeOk c) (.check (.rawPkH h)) = true) :
+    fromTree c (toTree c (.check (.rawPkH h))) = .ok (.check (.rawPkH h)) :=
+  fromTree_toTree c _ hok
 
-/-- … and a bare `RawPkH` prints under the name `expr_raw_pk_h`, which the parser does not know -/
-theorem rawpkh_bare_unparseable (c : Codec) (h : Nat) :
-    fromTree c (toTree c (.rawPkH h)) = .error .name := by
-  have hn : hasCurly (toTree c (.rawPkH h)) = false := toTreeW_noCurly c _ []
-  unfold fromTree
-  rw [hn]
-  unfold toTree
-  rw [toTreeW]
-  unfold core
-  rw [fromTreeI]
-  unfold parseNode
-  simp [joinName, nameSeparated_name, ofName_rawPkH]
+/-- a bare `RawPkH` prints under the name the parser reads -/
+theorem rawpkh_bare_roundtrip (c : Codec) (h : Nat) (hok : Ms.all (nodeOk c) (.rawPkH h) = true) :
+    fromTree c (toTree c (.rawPkH h)) = .ok (.rawPkH h) :=
+  fromTree_toTree c _ hok
 
 /-- a codec and context in which everything is admissible -/
 def idCodec : Codec := decCodec (fun _ => true)
 
-theorem rawpkh_admissible : Ms.all (nodeOkX idCodec) (.check (.rawPkH 0)) = true := by
+/-- the two objects are admissible (non-vacuity of the two statements above) and distinct -/
+theorem rawpkh_admissible : Ms.all (nodeOk idCodec) (.check (.rawPkH 0)) = true := by
   have h0 : readDec (showNat 0) = some 0 := readDec_showNat 0 (by omega)
-  simp [Ms.all, nodeOkX, rangeOk, atomsOk, idCodec, decCodec, h0, height, MAX_RECURSION_DEPTH]
+  simp [Ms.all, nodeOk, localOk, atomsOk, idCodec, decCodec, h0, height, MAX_RECURSION_DEPTH]
   decide
 
-theorem not_fromTree_toTree_full : ¬ fromTree_toTree_full := by
-  intro hfull
-  have h1 := hfull idCodec (.check (.rawPkH 0)) rawpkh_admissible
-  have h2 := rawpkh_check_roundtrip_differs idCodec 0 (by
-    have := rawpkh_admissible
-    simp only [Ms.all, Bool.and_eq_true] at this
-    simpa [Ms.all] using this.2)
-  rw [h2] at h1
-  cases h1
+theorem rawpkh_spellings_differ :
+    fromTree idCodec (toTree idCodec (.check (.rawPkH 0))) ≠ fromTree idCodec (toTree idCodec (.rawPkH 0)) := by
+  have h := rawpkh_admissible
+  rw [rawpkh_check_roundtrip idCodec 0 h,
+    rawpkh_bare_roundtrip idCodec 0 (by
+      simp only [Ms.all, Bool.and_eq_true] at h
+      simpa [Ms.all] using h.2)]
+  intro e; cases e
 
 /-! ## non-vacuity: concrete objects satisfy the hypothesis -/
 
@@ -139,5 +131,8 @@ example : fromTree idCodec (toTree idCodec sample) = .ok sample :=
 
 example : fromTree idCodec (plainTree idCodec sample) = fromTree idCodec (toTree idCodec sample) :=
   sugar_never_changes_meaning idCodec sample sample_ok
+
+example : fromTree idCodec (toTree idCodec (.check (.rawPkH 0))) = .ok (.check (.rawPkH 0)) :=
+  rawpkh_check_roundtrip idCodec 0 rawpkh_admissible
 
 end MsVerif.C10b
